@@ -282,7 +282,11 @@ func vrGenPrefix(t *rapid.T) (s string, excludedF2 bool) {
 }
 
 func vrGenPortRange(t *rapid.T) string {
-	switch rapid.IntRange(0, 7).Draw(t, "port_kind") {
+	switch rapid.IntRange(0, 8).Draw(t, "port_kind") {
+	case 8:
+		// a range written the wrong way round is accepted by the parser; as an
+		// inclusive range start..end it contains no port at all
+		return rapid.SampledFrom([]string{"1000-10", "443-80", "65535-0", "1024-1023", "54-53"}).Draw(t, "port_descending")
 	case 0:
 		return "0"
 	case 1:
